@@ -325,13 +325,24 @@ func genC20(t *rapid.T) *Scenario {
 	case r >= 10:
 		// a standard precompile with a hostile input: length header words of every size
 		pnum := uint64(uniform(t, 1, 9, "stdp"))
+		if chance(t, 40, "stdmodexp") {
+			pnum = 5
+		}
 		if forkIndex(fork) < 7 {
 			fork = "Istanbul"
 		}
 		nwords := uniform(t, 0, 7, "stdwords")
+		if pnum == 5 {
+			nwords = uniform(t, 3, 6, "stdwords5")
+		}
 		note = fmt.Sprintf("std-precompile %d big", pnum)
 		var words []*uint256.Int
 		for i := 0; i < nwords; i++ {
+			if pnum == 5 && i < 3 {
+				// the three length words of MODEXP
+				words = append(words, uint256.NewInt(pickU64(t, "stdw5", 0, 0, 1, 32, 1<<20, 1<<26)))
+				continue
+			}
 			if chance(t, 70, "stdhost") {
 				words = append(words, uint256.NewInt(pickU64(t, "stdw", 0, 1, 32, 64, 1024, 1<<16, 1<<20, 1<<24, 1<<26)))
 			} else {
